@@ -330,3 +330,38 @@ class BiasInteger:
                              ("C19", "t == pre_t + v")])}
   on_call = {f"{U}::UniformSumCdf": ["assert [C19] args[0] == len(sample) * len(transforms)"]}
   props = ["C19"]
+
+
+# C12, NIST 2.10 (linear complexity): the integer part.  A block of complexity L is counted in class
+# clamp(L - median, -3, 3) + 3, where median - the centre of the seven classes - is the complexity that exactly half of all
+# m-bit sequences have (Rueppel's count, the closed form proved for LfsrCount / LfsrLogProbability under C14):
+# ceil(m / 2).  The Berlekamp-Massey routine itself is assumed here (C14's bounded tier decides it).
+BMPY = "paranoid_crypto/lib/randomness_tests/berlekamp_massey.py"
+
+
+@contract(f"{BMPY}::LinearComplexity")
+class BmLinearComplexity:
+  params = {"s": "int", "length": "int"}
+  returns = "int"
+  assumed = True
+  assumed_why = "Berlekamp-Massey (C++ through pybind): decided by the bounded tier of C14; here an uninterpreted function"
+  returns_expr = "ufi('linear_complexity', s, length)"
+  ensures = ["result == ufi('linear_complexity', s, length)"]
+
+
+@contract(f"{N}::LinearComplexityImpl#classes")
+class LinearComplexityImplClasses:
+  params = {"blocks": "list[int]", "m": "int"}
+  returns = "opaque"
+  requires = ["m >= 1"]
+  entry_ghost = ["g_v0 = 0"]
+  loops = {0: dict(invariant=["len(v) == 7", "k == 6"], head=["g_v0 = v[:]"],
+                   body_end=[("C12", "v[min(6, max(0, length - median + 3))] == g_v0[min(6, max(0, length - median + 3))] + 1"),
+                             ("C12", "forall(t, 0, 7, t == min(6, max(0, length - median + 3)) or v[t] == g_v0[t])")])}
+  on_call = {f"{N}::ChiSquare": [
+      "assert [C12] args[0] is v and args[2] is not None and args[2] == 6",
+      "assert [C12] 2 * lfsr_count_spec(m, median) == pow2(m)",
+      "stop"]}
+  total = True
+  total_props = ["C12"]
+  props = ["C12"]
